@@ -32,6 +32,7 @@ type fuzzTarget struct {
 
 type checkCfg struct {
 	QuickShards      int          `json:"quick_shards"`
+	QuickScale       int          `json:"quick_scale"` // quick-tier case counts of the package are multiplied by this (default 1)
 	ThoroughShards   int          `json:"thorough_shards"`
 	QuickTimeoutS    int          `json:"quick_timeout_s"`
 	ThoroughTimeoutS int          `json:"thorough_timeout_s"`
@@ -202,7 +203,8 @@ func main() {
 			c.Dir = pkgDir
 			c.Env = append(os.Environ(),
 				"VERIF_ROOT="+root, "VERIF_TIER="+tier, "VERIF_SEED="+strconv.FormatInt(seed, 10),
-				"VERIF_SHARD="+strconv.Itoa(i), "VERIF_SHARDS="+strconv.Itoa(shards), "VERIF_PART_OUT="+pf)
+				"VERIF_SHARD="+strconv.Itoa(i), "VERIF_SHARDS="+strconv.Itoa(shards), "VERIF_PART_OUT="+pf,
+				"VERIF_QUICK_SCALE="+strconv.Itoa(max(1, cfg.QuickScale)))
 			c.WaitDelay = 10 * time.Second
 			out, err := c.CombinedOutput()
 			r := res{shard: i, out: out, err: err, timed: ctx.Err() == context.DeadlineExceeded}
